@@ -1134,7 +1134,11 @@ func (e *Exec) loopHeader(f *frame, li *loopInfo, loops map[*ssa.BasicBlock]*loo
 			base = "(if_ref " + nv.T + ")"
 		}
 		if base != "" {
-			e.s.assert(fmt.Sprintf("(>= %s (- %d))", base, bodyMaxAlloc))
+			// ... and, if it is an object allocated by an earlier iteration, it is none of the objects this
+			// iteration is about to allocate (which get the same small identifiers again): such objects live in
+			// an identifier range of their own
+			_ = bodyMaxAlloc
+			e.s.assert(fmt.Sprintf("(or (>= %s (- %d)) (<= %s (- 1000000)))", base, e.allocN, base))
 		}
 	}
 	e.reassertPrivateAtLoopHead(h, h2, e.lastDiscoverWrites)
